@@ -59,6 +59,33 @@ def render_table(operand, rows, sep='\n'):
     return f'{operand} between {{\n{body}\n}}'
 
 
+def directed_inputs(rng, rows, n):
+    """token sequences built from the table's own operators: (pre* operand post*) (inf pre* operand post*)*, 2-5 operands,
+    complete and truncated - long enough for two operators of one row with operators of other rows pending between them"""
+    un = lambda o: o.strip('"')
+    pre = [un(o) for k, ops in rows if k == 'prefix' for o in ops]
+    post = [un(o) for k, ops in rows if k == 'postfix' for o in ops]
+    inf = [un(o) for k, ops in rows if k in ('left', 'right', 'infix') for o in ops]
+    out = []
+    for _ in range(n):
+        parts = []
+        for i in range(rng.randint(2, 5)):
+            if i:
+                if not inf:
+                    break
+                parts.append(rng.choice(inf))
+            if pre and rng.random() < 0.35:
+                parts.append(rng.choice(pre))
+            parts.append(rng.choice('12'))
+            if post and rng.random() < 0.35:
+                parts.append(rng.choice(post))
+        s = ''.join(parts)
+        out.append(s)
+        if rng.random() < 0.25 and len(s) > 1:
+            out.append(s[:rng.randrange(1, len(s))])
+    return list(dict.fromkeys(out))
+
+
 def build_jobs(tier, seed):
     rng = random.Random(seed)
     jobs = []
@@ -90,6 +117,7 @@ def build_jobs(tier, seed):
             continue
         seen.add(text)
         inputs = rng.sample(base, min(len(base), 260 if tier == 'quick' else 700)) + extra
+        inputs = list(dict.fromkeys(inputs + directed_inputs(rng, rows, 40 if tier == 'quick' else 120)))
         jobs.append({'id': len(jobs), 'text': text, 'cases': [(0, t) for t in inputs], 'entries': ['start', 'E'], 'fuel': 400,
                      'meta': {'ctx': f'{okind}/{ctx}/{"+".join(k for k, _ in rows)}', 'kinds': [k for k, _ in rows], 'depth': len(rows)}})
     return jobs
